@@ -20,7 +20,7 @@ from ..gen import c11_gen as GEN
 
 PID = "C11"
 COQ_HEADER = ("From Coq Require Import List NArith ZArith.\nImport ListNotations.\n"
-              "From SK Require Import lib.Tok lib.LGraph model.C11_Model model.C11_State model.C11_Partial model.C11_Keys model.C11_Attr model.C11_Orbit model.C11_Order model.C11_SigObs model.C11_Views model.C11_AttrFull.\nLocal Open Scope N_scope.\n")
+              "From SK Require Import lib.Tok lib.LGraph model.C11_Model model.C11_State model.C11_Partial model.C11_Keys model.C11_Attr model.C11_Orbit model.C11_Order model.C11_SigObs model.C11_Views model.C11_AttrFull model.C11_State2.\nLocal Open Scope N_scope.\n")
 SHARD = 100
 IMPL_TIMEOUT = 300      # the stage takes 7 s on 16 idle cores (40 CPU-s); a lost pool worker ends it after this bound, not later
 COQ_TIMEOUT = 300       # per shard of 100 cases (8 CPU-s at most since the cases are dealt round-robin)
@@ -41,7 +41,7 @@ EXPLANATION = ("Exhaustive sub-space (both tiers): every labelled graph up to is
                "Everything else is seeded random / "
                "corpus sampling.  Theorems (coq/props/C11.v, all closed under the global context): C11_vocabulary, C11_aut_count, C11_aut_group, "
                "C11_vf2_contract, C11_vf2_contract_items, C11_orbits_exact, C11_orbits_partition, C11_components, C11_anchors, C11_object_state, C11_wl_never_splits, C11_wl_partition, C11_wfb_sound, "
-               "C11_dedup_sublist, C11_dedup_first_of_class, C11_dedup_idempotent, C11_partial_prune, C11_partial_prune_hosts, C11_prune_complete, C11_rep_ok, C11_prune_complete_aut, C11_prune_first_of_class, C11_prune_same_results, C11_configured_labels_only, C11_key_options, C11_rule_labels, C11_orbit_accuracy, C11_aut_observable, C11_wl_never_splits_reported, C11_orbit_accuracy_all, C11_orbit_order, C11_views, C11_dedup_singletons_sound, C11_dedup_orbit_sets_merge_unrelated, C11_orbits_no_swaps, C11_count_no_swaps, C11_repr_numeral, C11_reported_order_canonical, C11_prune_attr, C11_wl_sweeps, C11_aut_observable_attr.")
+               "C11_dedup_sublist, C11_dedup_first_of_class, C11_dedup_idempotent, C11_partial_prune, C11_partial_prune_hosts, C11_prune_complete, C11_rep_ok, C11_prune_complete_aut, C11_prune_first_of_class, C11_prune_same_results, C11_configured_labels_only, C11_key_options, C11_rule_labels, C11_orbit_accuracy, C11_aut_observable, C11_wl_never_splits_reported, C11_orbit_accuracy_all, C11_orbit_order, C11_views, C11_dedup_singletons_sound, C11_dedup_orbit_sets_merge_unrelated, C11_orbits_no_swaps, C11_count_no_swaps, C11_repr_numeral, C11_reported_order_canonical, C11_prune_attr, C11_wl_sweeps, C11_aut_observable_attr, C11_dedup_subset_safe, C11_est_index_state.")
 TRUSTED_BASE = [
     "Coq 8.16.1 kernel + vm_compute (no native_compute)",
     "hand-written model coq/model/C11_Model.v tied to synkit/Graph/Matcher/{automorphism,auto_est,dedup_matches}.py and the pruning call of "
@@ -746,6 +746,14 @@ def _impl_hist(case):
         E_old = AutoEst(G).fit()
         A_kept = Automorphism(G)          # ONE exact-analysis object for the whole history (model: C11_State.reads)
         E_kept = AutoEst(G)               # ONE estimator, fitted again after every edit   (model: C11_State.refits)
+        E_idx = AutoEst(G)                # ONE estimator whose cached orbit index is read before and after every re-fit (C11_State2)
+        idx_hist = []
+
+        def read_index():
+            try:
+                return [S([[n, [i]] for n, i in E_idx.orbit_index.items()])]
+            except RuntimeError:
+                return []
         out, reads, refits = [], [], []
         for st in case["steps"]:
             lazy = Automorphism(G) if st.get("edit") else None
@@ -755,7 +763,10 @@ def _impl_hist(case):
             reads.append([A_kept.n_automorphisms, S([S(sorted(o)) for o in A_kept.orbits])])
             col = E_kept.fit().node_colors
             refits.append([[col[n] for n in G.nodes()]])
-        return [out, [reads, refits]]
+            stale = read_index()          # after the edit, before the new fit: the answer of the previous fit (or RuntimeError)
+            E_idx.fit()
+            idx_hist.append([stale, read_index(), read_index()])
+        return [out, [reads, refits], idx_hist]
     if case["script"] == "prune":
         rule = _shared_rule(case["steps"][0]) if case.get("share_rule") else None
         return [_impl_prune(st, rule=rule) for st in case["steps"]]
@@ -770,7 +781,8 @@ def _coq_hist(case):
                 return None
             t = _coq_keys(g, st.get("nk"), st.get("ek"))
             terms.append("L [%s; tlist tbool [%s]]" % (t, "; ".join(["true"] * N_FLAGS)))
-        return "L [L [%s]; run_objects [%s]]" % ("; ".join(terms), "; ".join(_coq_graph(g) for g in hist_graphs(case)))
+        gs = "; ".join(_coq_graph(g) for g in hist_graphs(case))
+        return "L [L [%s]; run_objects [%s]; run_index_history [%s]]" % ("; ".join(terms), gs, gs)
     if case["script"] == "prune":
         terms = []
         for st in case["steps"]:
